@@ -121,7 +121,8 @@ PLANS = {
                 selftest=2, timeout=1700),
         ],
         'thorough': [
-            leg('R', 'R', 640, opts={'events': 16, 'kmax': 10, 'max_steps': 48},
+            leg('R', 'R', 640, opts={'events': 16, 'kmax': 10, 'max_steps': 48,
+                                     'p_long': 0.1, 'long_steps': 160},
                 weight=16, max_workers=16, selftest=4, timeout=3400, deadline=3500),
         ],
         'rule': (
